@@ -614,9 +614,9 @@ pub fn cases(i: usize, seed: u64, sz: &Sizes, emit: &mut dyn FnMut(&'static str,
 pub fn run(ctx: &Ctx) -> Report {
     let template = real::blank_machine();
     let sz = Sizes {
-        two_byte_samples: ctx.size(400, 6000) as usize,
+        two_byte_samples: ctx.size(1000, 10_000) as usize,
         misc_samples: ctx.size(2000, 40_000) as usize,
-        seq_programs: ctx.size(5000, 150_000) as usize,
+        seq_programs: ctx.size(20_000, 400_000) as usize,
         alu_stride: 1,
     };
     let mut rep = par_items(ctx.threads, n_items(&sz), ctx.seed, |i, seed, rep| {
